@@ -41,6 +41,10 @@ def run(tier, seed):
     rng = Rng(seed, 2)
     n = 120 if tier == "quick" else 2500
     progs = list(MODULE_PROGRAMS)
+    from .heapcommon import GC_PROGRAMS
+    progs += [q.replace("(range 3000)", "(range 150)").replace("(range 1500)", "(range 90)").replace("(range 600)", "(range 120)").replace(" 600)", " 120)").replace("(range 30)))", "(range 12)))") for q in GC_PROGRAMS]
+    progs += ["(try (block (length (range 60)) (car 5)) (catch wrong-argument-type (lambda (e) (list 'caught (. e 'source)))))",
+              "(eval (make-trap '(block (length (range 80)) (signal 'x)) (list 'list ''handled '*trapped-signal* (list 'quote (range 5)))))"]
     progs += ["(list (gensym) (lambda (x) x) (trap 1 2) car)", "(print (list (gensym) (lambda (x) x) (trap 1 2) car))", "(describe map)",
               "(define 'a 1 \"\") (whereis 'a) (whereis 'car) (whereis 'nothing)"]
     for i in range(n):
